@@ -180,6 +180,8 @@ def run(ctx):
 
     def enlarged():
         pass
+    import cli_common
+    cli_common.cli_suite(ctx, ctx.budget(12, 120))      # the same through the command line itself
     common.conclude(ctx)
 
 
